@@ -41,7 +41,8 @@ def expected(c):
                 out.append([s0, e0 + d, l])
             elif m == "split":
                 out.append([s0, s, l])
-                out.append([s + d, e0 + d, l])
+                if s + d < e0 + d:       # a remainder below the resolution of binary64 at s + d cannot be an interval
+                    out.append([s + d, e0 + d, l])
             elif m == "no_change":
                 out.append([s0, e0, l])
             else:
@@ -124,6 +125,11 @@ def corpus():
     yield {"op": "ispace", "tier": t, "s": 1.1, "d": 0.7, "mode": "split", "grid": False}
     yield {"op": "ispace_erase", "tier": t, "s": 1.1, "d": 0.7, "mode": "split", "grid": False}
     yield {"op": "ispace_erase", "tier": t, "s": 4.1, "d": 0.123, "mode": "stretch", "grid": False}
+    # A21 (fixed): the insertion time a few ulps before the end of the straddled interval
+    t2 = {"k": "I", "name": "T", "es": [[1.786, 2.86, "a"]], "lo": 0.0, "hi": 10.0}
+    yield {"op": "ispace", "tier": t2, "s": 2.8599999999999994, "d": 2.542, "mode": "split", "grid": False}
+    t3 = {"k": "I", "name": "T", "es": [[0.858, 3.34, "a"]], "lo": 0.0, "hi": 10.0}
+    yield {"op": "ispace_erase", "tier": t3, "s": 3.3399999999999994, "d": 1.92, "mode": "split", "grid": False}
 
 
 def gen(rnd, tier):
